@@ -271,7 +271,12 @@ def install_patches():
             await CUR.gate(f"hash:{self.job_i}")
         else:
             await asyncio.sleep(0)
-        return self.work(self._cancel_event)
+        try:
+            return self.work(self._cancel_event)
+        finally:
+            # the moment at which the disk was read (spec/Job.tla: what a job decides on)
+            if CUR is not None:
+                CUR.emit("hashed", job=self.job_i)
 
     run_mod.ThreadWorker.run_in_thread = inline
 
